@@ -28,6 +28,9 @@ fn unit_scenario(direct: Direct, initial_parts: Vec<(u8, u16)>, steps: Vec<Step>
         freeze_polls: false,
         initial_pending: vec![],
         ds_read_faults: vec![],
+        initial_succeeded: vec![],
+        cfg_later: None,
+        notif_stall: false,
     }
 }
 
